@@ -41,7 +41,7 @@ def run(prop, tier, seed):
     res = run_tlc('Codec.tla', 'Codec.cfg', workers=4, timeout=300)
     if res.error or res.violation:
         raise MachineryError('Codec.tla: %s %s' % (res.error, res.violation))
-    out.add_tlc('Codec.cfg', res, 'full product: 12 kinds x 5 length classes x feature sets x 4 thresholds x 2 disks x 13 accessors')
+    out.add_tlc('Codec.cfg', res, 'full product: 12 kinds x 5 length classes x feature sets x 4 thresholds x 2 disks x 16 accessors (incr / decr inside and across the 64-bit range for integers)')
     vcs = value_cases(rng, tier)
     jobs = []
     tid = 0
@@ -55,6 +55,8 @@ def run(prop, tier, seed):
                     if thr == 't32k' and ln == 'big' and tier == 'quick' and rng.random() < 0.5:
                         continue
                     accs = codecdriver.ACCESSORS if tier == 'thorough' else rng.sample(codecdriver.ACCESSORS, 3) + [rng.choice(['get-unpickled', 'pull-unpickled'])]
+                    if k == 'int64':
+                        accs = list(accs) + codecdriver.INCR_ACC * 3
                     for a in accs:
                         for _ in range(reps):
                             cases.append((k, ln, fs, a))
